@@ -141,7 +141,7 @@ def g_cer(draw, weights=None):
     return {
         "rc": {k: draw(st.sampled_from(weights)) for k in RC},
         "fc": {k: draw(st.booleans()) for k in FCS},
-        "hints": {k: f"Hinweis {k}" for k in HINTS},
+        "hints": draw(gen.hint_texts(HINTS)),
     }
 
 
